@@ -21,6 +21,7 @@ from __future__ import annotations
 import base64
 import io
 import json
+import os
 import quopri
 import random
 import re
@@ -394,6 +395,23 @@ def validate_events(ctx, traces, parallel=12):
     return accepted, bad, distinct, generated, wall
 
 
+def _model_agreement(ctx, traces, model):
+    """Opt-in (C17_MODEL=ref|asbuilt): does the step machine of HtmlSkip.tla predict the observed word set
+    exactly?  Prints the count of differing observations; never influences the verdict."""
+    f = ctx.scratch / "model-traces.json"
+    f.write_text(json.dumps([_strip(t) for t in traces]))
+    r = run_tlc("HtmlSkipTrace", "SPECIFICATION ModelSpec\n", scratch=ctx.scratch / "tlc-model", workers=1,
+                timeout=1500, heap="8g", env={"TRACE_FILE": str(f), "MBV_PROGRESS": "0", "MBV_MODEL": model})
+    diffs = re.findall(r'<<"DIFF", (\d+), (\d+), (\{.*?\})>>', r.output)
+    n = sum(1 for t in traces for e in t["ev"] if e["w"] != "eml")
+    ctx.log(f"MODEL-AGREEMENT model={model}: {n - len(diffs)} of {n} observations equal the step machine's output, "
+            f"{len(diffs)} differ")
+    for tid, l, exp in diffs[:10]:
+        e = traces[int(tid) - 1]["ev"][int(l) - 1]
+        ctx.log(f"   differ: {e['w']} eof={e['eof']} {_compact([(t['k'], t['n']) for t in e['toks']])} "
+                f"model={exp} observed={e['seen']} html={e['html']!r}")
+
+
 # --------------------------------------------------------------------------- driver
 def _run_workers(ctx, cases, msgfile):
     n = min(NWORKERS, max(1, len(cases) // 50))
@@ -534,6 +552,8 @@ def run(ctx):
         if not by_w.get(w):
             raise MachineryError(f"no observation recorded for wrapper {w}")
     traces = _build_traces(events)
+    if os.environ.get("C17_MODEL"):                        # self-test of the algorithm part, not a verdict
+        _model_agreement(ctx, traces, os.environ["C17_MODEL"])
     accepted, bad, d, g, wall = validate_events(ctx, traces)
     ev.tlc_counts("HtmlSkipTrace: recorded observations validated (+ ExplainSpec on rejected traces)", d, g, wall)
     ev.replayed(len(events))
